@@ -151,6 +151,7 @@ def run(exe, args, stdin_data=None, stdin_path=None, env=None, timeout=120, work
     e = dict(os.environ)
     e.pop("RUST_BACKTRACE", None)
     e["NO_COLOR"] = "0"
+    e["TMPDIR"] = wd        # human-panic writes its crash report to the temp dir: keep it inside the scratch directory
     if env:
         e.update(env)
     t0 = time.time()
@@ -198,3 +199,38 @@ MODES = {
     "all_its": ["check", "all", "its"],
     "all_its_stave": ["check", "all", "its-stave"],
 }
+
+
+# ---- view parsers ---------------------------------------------------------------------------------
+ROW = re.compile(r"^\s*([0-9A-F]+):\s*(.*)$")
+
+
+def parse_rdh_view(stdout):
+    """[(offset, [14 field strings])] from `view rdh` (styled or not)."""
+    rows = []
+    for line in strip_ansi(stdout.decode("utf-8", "replace")).split("\n"):
+        m = ROW.match(line)
+        if m:
+            rows.append((int(m.group(1), 16), m.group(2).split()))
+    return rows
+
+
+WROW = re.compile(r"^\s*([0-9A-F]+):\s*(RDH|IHW|TDH|TDT|DDW|CDW|DATA)\s+(.*)$")
+WBYTES = re.compile(r"\[((?:[0-9A-F]{2} ){9}[0-9A-F]{2})\]")
+
+
+def parse_frames_view(stdout):
+    """[(offset, kind, bytes or None, rest-of-line tokens)] from the ITS readout frame views."""
+    rows = []
+    for line in strip_ansi(stdout.decode("utf-8", "replace")).split("\n"):
+        m = WROW.match(line)
+        if not m:
+            continue
+        off, kind, rest = int(m.group(1), 16), m.group(2), m.group(3)
+        b = None
+        mb = WBYTES.search(rest)
+        if mb and kind != "RDH":
+            b = bytes.fromhex(mb.group(1).replace(" ", ""))
+            rest = rest[mb.end():]
+        rows.append((off, kind, b, rest.split()))
+    return rows
